@@ -571,6 +571,68 @@ func main() {
 		fmt.Fprintf(&b, "def unexportKeywords : List (List UInt8) := [%s]\n", strings.Join(kws, ", "))
 	}
 
+	// --- site facts: every write of a protocol header whose value must be encoded ----------
+	// For each key constant, every call `<x>.Set(<key>, v)` / `<x>.Add(<key>, v)` and every
+	// assignment `<x>[<key>] = ...` in the package is listed with how `v` is produced:
+	//   0 = a call of the required encoder, 1 = the empty string literal, 2 = anything else.
+	{
+		type rule struct{ lean, key, encoder string }
+		for _, r := range []rule{
+			{"grpcMessageWrites", "grpcHeaderMessage", "grpcPercentEncode"},
+			{"grpcDetailsWrites", "grpcHeaderDetails", "EncodeBinaryHeader"},
+		} {
+			var rows []string
+			names := make([]string, 0, len(p.funcs))
+			for name := range p.funcs {
+				names = append(names, name)
+			}
+			sort.Strings(names)
+			for _, name := range names {
+				fn := p.funcs[name]
+				if fn.Body == nil {
+					continue
+				}
+				ast.Inspect(fn.Body, func(n ast.Node) bool {
+					switch x := n.(type) {
+					case *ast.CallExpr:
+						sel, ok := x.Fun.(*ast.SelectorExpr)
+						if !ok || (sel.Sel.Name != "Set" && sel.Sel.Name != "Add") || len(x.Args) != 2 {
+							return true
+						}
+						if id, ok := x.Args[0].(*ast.Ident); !ok || id.Name != r.key {
+							return true
+						}
+						kind := 2
+						switch v := x.Args[1].(type) {
+						case *ast.CallExpr:
+							if id, ok := v.Fun.(*ast.Ident); ok && id.Name == r.encoder {
+								kind = 0
+							}
+						case *ast.BasicLit:
+							if v.Value == `""` {
+								kind = 1
+							}
+						}
+						rows = append(rows, fmt.Sprintf("(%s, %d)", leanStr(name), kind))
+					case *ast.AssignStmt:
+						for _, lhs := range x.Lhs {
+							if ix, ok := lhs.(*ast.IndexExpr); ok {
+								if id, ok := ix.Index.(*ast.Ident); ok && id.Name == r.key {
+									rows = append(rows, fmt.Sprintf("(%s, 2)", leanStr(name)))
+								}
+							}
+						}
+					}
+					return true
+				})
+			}
+			if len(rows) == 0 {
+				miss("writes of " + r.key)
+			}
+			fmt.Fprintf(&b, "def %s : List (List UInt8 × Nat) := [%s]\n", r.lean, strings.Join(rows, ", "))
+		}
+	}
+
 	b.WriteString("\nend ConnectModel.Gen\n")
 
 	if len(missing) > 0 {
